@@ -343,7 +343,9 @@ where
         #[cfg(pdf_rs_pdf_verif)]
         crate::verif_hooks::yield_point("pushed", key, std::any::type_name::<T>());
         
+        let mut computed = false;
         let res = self.storage.cache.get_or_compute(key, || {
+            computed = true;
             match self.resolve(key).and_then(|p| T::from_primitive(p, self)) {
                 Ok(obj) => Ok(AnySync::new(Shared::new(obj))),
                 Err(e) => {
@@ -365,7 +367,13 @@ where
                     }
                 }
             }
-            Err(e) => Err(PdfError::Shared { source: e.clone()}),
+            Err(e) if computed => Err(PdfError::Shared { source: e.clone()}),
+            Err(_) => {
+                // the error was cached by an earlier load of this reference, possibly as a
+                // different type: it says nothing about loading it as T. load again, uncached.
+                let p = self.resolve(key)?;
+                Ok(RcRef::new(key, T::from_primitive(p, self)?.into()))
+            }
         }
     }
     fn options(&self) -> &ParseOptions {
